@@ -74,7 +74,7 @@ likewise. -/
 theorem index_preserved (pt : Product) (evs : List Event) : WorldOK pt (run pt {} evs).1 :=
   run_ok evs {} (init_ok pt)
 
-example : ∃ e ∈ (run .I {} [.ecomaxParams [0, 42, 2, 1, 0, 9, 7, 1, 9]]).1.ecomax,
+example : ∃ e ∈ (run .I {} [.uid, .ecomaxParams [0, 42, 2, 1, 0, 9, 7, 1, 9]]).1.ecomax,
     Gen.ecomaxI[42]?.map (·.name) = some e.name ∧ e.index = 42 ∧ e.triple = ⟨1, 0, 9⟩ := by decide +kernel
 
 /-- an existing parameter of the same class is updated in place: index, offset, owner kept -/
@@ -297,7 +297,7 @@ theorem request_addresses (pt : Product) (evs : List Event) {dev : Dev} {e : Ent
         · cases hr
       · cases hr
 
-example : (run .P {} [.mixerParams [0, 0, 2, 2, 1, 0, 9, 2, 0, 9, 3, 0, 9, 4, 0, 9],
+example : (run .P {} [.uid, .mixerParams [0, 0, 2, 2, 1, 0, 9, 2, 0, 9, 3, 0, 9, 4, 0, 9],
       .set (.mixer 1) ((Gen.mixerP[1]?.map (·.name)).getD "") 5]).2 = [.req ⟨.setMixer, [1, 1, 5]⟩] := by decide +kernel
 
 /-! ### read slot = write slot, for every parameter family
@@ -337,27 +337,25 @@ theorem decodeEcomax_sorted {msg : List Byte} {items : P2.Params} {rest : List B
   · exact (decodeRun_facts _ _ _ _ _ _ h).2.1
   · cases h
 
-/-- **read slot = write slot (ecoMAX)**: after an ecoMAX parameters response arrives in any
-reachable world, the triple the decoder reports for a described position `pos` is held under the
-name of that position's description, by a parameter whose recorded index is `pos` — created by this
-response or updated (create then update).  Uses `names_unique`, `reserved_names`, the invariant. -/
-theorem read_slot_ecomax (pt : Product) (w : World) (hw : WorldOK pt w) (msg : List Byte)
+/-- dataset level: applying the decoded items of an ecoMAX response (with the table of product `pt`)
+to a controller dataset `ds` of a reachable world -/
+theorem read_slot_ecomax_ds (pt : Product) (ds : DS) (hds : ∀ e ∈ ds, EntryOK pt e ∧ OnEcomax e) (msg : List Byte)
     (items : P2.Params) (rest : List Byte) (hdec : P2.decodeEcomax msg = .ok (items, rest))
     (pos : Nat) (t : P2.Triple) (hmem : (pos, t) ∈ items) (d : Gen.Desc)
     (hd : (tableOf pt .ecomax)[pos]? = some d) :
-    ∃ e, find (step pt w (.ecomaxParams msg)).1.ecomax d.name = some e ∧
+    ∃ e, find (applyEcomaxItems pt ds ds items) d.name = some e ∧
       e.index = pos ∧ e.triple = tr t ∧ e.kind = .ecomax ∧ e.name = d.name := by
-  simp only [step, hdec, applyEcomaxItems]
-  rw [read_slot_items (fun _ _ _ => rfl) (fun i j a b => name_index_bijection pt .ecomax) w.ecomax items w.ecomax
+  simp only [applyEcomaxItems]
+  rw [read_slot_items (fun _ _ _ => rfl) (fun i j a b => name_index_bijection pt .ecomax) ds items ds
     (decodeEcomax_sorted hdec) pos t hmem d hd]
   have hdmem : d ∈ Gen.ecomaxP ++ Gen.ecomaxI := by
     have := List.mem_of_getElem? hd
     cases pt <;> simp only [tableOf] at this <;> simp [this]
   have hres := reserved_names d hdmem
   obtain ⟨h1, h2, h3, h4, _⟩ := upsertResult_slot pt .ecomax (new := mkEcomax d pos t) rfl rfl rfl hd
-    (fun e he => (hw.eco e he).1) (by
+    (fun e he => (hds e he).1) (by
       intro e0 hm0 hn0 hc
-      obtain ⟨⟨d0, hd0, hdn0, _, _⟩, _⟩ := hw.eco e0 hm0
+      obtain ⟨⟨d0, hd0, hdn0, _, _⟩, _⟩ := hds e0 hm0
       simp only [sameClass, mkEcomax, newEntry, Bool.and_eq_true, beq_iff_eq] at hc
       cases hk : e0.kind with
       | ecomax => rfl
@@ -375,6 +373,20 @@ theorem read_slot_ecomax (pt : Product) (w : World) (hw : WorldOK pt w) (msg : L
         have : d0 = Gen.thermostatProfile := by simpa using List.mem_of_getElem? hd0
         exact absurd (by rw [← hn0, ← hdn0, this]) hres.2)
   exact ⟨_, rfl, h3, h4, h2, h1⟩
+
+/-- **read slot = write slot (ecoMAX)**: after an ecoMAX parameters response arrives in any
+reachable world in which product info is known, the triple the decoder reports for a described
+position `pos` is held under the name of that position's description, by a parameter whose recorded
+index is `pos` — created by this response or updated (create then update).  Uses `names_unique`,
+`reserved_names`, the invariant.  (Before the UID response: `delayed_application_uses_real_product`.) -/
+theorem read_slot_ecomax (pt : Product) (w : World) (hw : WorldOK pt w) (hk : w.known = true) (msg : List Byte)
+    (items : P2.Params) (rest : List Byte) (hdec : P2.decodeEcomax msg = .ok (items, rest))
+    (pos : Nat) (t : P2.Triple) (hmem : (pos, t) ∈ items) (d : Gen.Desc)
+    (hd : (tableOf pt .ecomax)[pos]? = some d) :
+    ∃ e, find (step pt w (.ecomaxParams msg)).1.ecomax d.name = some e ∧
+      e.index = pos ∧ e.triple = tr t ∧ e.kind = .ecomax ∧ e.name = d.name := by
+  simp only [step, hdec, hk, if_true]
+  exact read_slot_ecomax_ds pt w.ecomax hw.eco msg items rest hdec pos t hmem d hd
 
 /-- entries of an existing (or not yet existing) sub-device dataset -/
 theorem lookup_getD_facts {Q : Nat → Entry → Prop} {l : List (Nat × DS)} (h : ∀ p ∈ l, ∀ e ∈ p.2, Q p.1 e) (i : Nat) :
@@ -397,10 +409,26 @@ theorem decodeMixer_facts {msg : List Byte} {blocks : P2.Blocks} {rest : List By
     exact ⟨fun b hb => by obtain ⟨_, _, _, h4, _, h6⟩ := hall b hb; exact ⟨by omega, trivial, trivial, h4, trivial, h6⟩, hs⟩
   · cases h
 
-/-- **read slot = write slot (mixer)**: the triple the decoder reports for position `pos` of mixer
-`m`'s block is held by mixer `m`'s dataset under the name of that position's description, with
-index `pos`, owner `m` — created or updated. -/
-theorem read_slot_mixer (pt : Product) (w : World) (hw : WorldOK pt w) (msg : List Byte)
+/-- sub-device level: what mixer `m`'s handler makes of a decoded block, on a dataset of a reachable world -/
+theorem read_slot_mixer_ds (pt : Product) (m : Nat) (old : DS) (hold : ∀ e ∈ old, EntryOK pt e ∧ OnMixer m e)
+    (items : P2.Params) (hitems : items.Pairwise (fun a b => a.1 < b.1))
+    (pos : Nat) (t : P2.Triple) (hmem : (pos, t) ∈ items) (d : Gen.Desc)
+    (hd : (tableOf pt .mixer)[pos]? = some d) :
+    ∃ e, find (mixerBlock pt m items old) d.name = some e ∧
+      e.index = pos ∧ e.triple = tr t ∧ e.kind = .mixer ∧ e.devIndex = m ∧ e.name = d.name := by
+  have hfind := read_slot_items (skip := false) (mk := mkMixer m) (fun _ _ _ => rfl)
+    (fun i j a b => name_index_bijection pt .mixer) old items old hitems pos t hmem d hd
+  obtain ⟨h1, h2, h3, h4, h5⟩ := upsertResult_slot pt .mixer (new := mkMixer m d pos t) rfl rfl rfl hd
+    (fun e he => (hold e he).1) (fun e he _ _ => (hold e he).2.1)
+  refine ⟨_, hfind, h3, h4, h2, ?_, h1⟩
+  rcases h5 with h5 | ⟨e0, he0, h5⟩
+  · rw [h5]; rfl
+  · rw [h5]; exact (hold e0 he0).2.2.1
+
+/-- **read slot = write slot (mixer)**: (product info known) the triple the decoder reports for
+position `pos` of mixer `m`'s block is held by mixer `m`'s dataset under the name of that position's
+description, with index `pos`, owner `m` — created or updated. -/
+theorem read_slot_mixer (pt : Product) (w : World) (hw : WorldOK pt w) (hk : w.known = true) (msg : List Byte)
     (blocks : P2.Blocks) (rest : List Byte) (hdec : P2.decodeMixer msg = .ok (blocks, rest))
     (m : Nat) (items : P2.Params) (hb : (m, items) ∈ blocks)
     (pos : Nat) (t : P2.Triple) (hmem : (pos, t) ∈ items) (d : Gen.Desc)
@@ -410,17 +438,106 @@ theorem read_slot_mixer (pt : Product) (w : World) (hw : WorldOK pt w) (msg : Li
   obtain ⟨hall, hsorted⟩ := decodeMixer_facts hdec
   obtain ⟨_, _, _, hitems, _, _⟩ := hall (m, items) hb
   have hold := lookup_getD_facts (Q := fun i e => EntryOK pt e ∧ OnMixer i e) hw.mix m
-  have hfind := read_slot_items (skip := false) (mk := mkMixer m) (fun _ _ _ => rfl)
-    (fun i j a b => name_index_bijection pt .mixer) ((lookupDev w.mixers m).getD []) items
-    ((lookupDev w.mixers m).getD []) hitems pos t hmem d hd
-  obtain ⟨h1, h2, h3, h4, h5⟩ := upsertResult_slot pt .mixer (new := mkMixer m d pos t) rfl rfl rfl hd
-    (fun e he => (hold e he).1) (fun e he _ _ => (hold e he).2.1)
-  refine ⟨mixerBlock pt m items ((lookupDev w.mixers m).getD []), _, ?_, hfind, h3, h4, h2, ?_, h1⟩
-  · simp only [step, hdec, applyMixers]
-    exact lookupDev_applyBlocks _ blocks w.mixers hsorted m items hb
-  · rcases h5 with h5 | ⟨e0, he0, h5⟩
-    · rw [h5]; rfl
-    · rw [h5]; exact (hold e0 he0).2.2.1
+  obtain ⟨e, hf, hrest⟩ := read_slot_mixer_ds pt m _ hold items hitems pos t hmem d hd
+  refine ⟨mixerBlock pt m items ((lookupDev w.mixers m).getD []), e, ?_, hf, hrest⟩
+  simp only [step, hdec, hk, if_true, applyMixers]
+  exact lookupDev_applyBlocks _ blocks w.mixers hsorted m items hb
+
+/-! ### arrival order: parameter responses handled before the UID response -/
+
+theorem applyPendingEco_append (pt : Product) : ∀ (p : List P2.Params) (ds : DS) (items : P2.Params),
+    applyPendingEco pt ds (p ++ [items]) =
+      applyEcomaxItems pt (applyPendingEco pt ds p) (applyPendingEco pt ds p) items := by
+  intro p
+  induction p with
+  | nil => intro ds items; rfl
+  | cons x rest ih => intro ds items; simp only [List.cons_append, applyPendingEco]; exact ih _ items
+
+theorem applyBlocks_append (g : Nat → P2.Params → DS → DS) : ∀ (a b : P2.Blocks) (devs : List (Nat × DS)),
+    applyBlocks g devs (a ++ b) = applyBlocks g (applyBlocks g devs a) b := by
+  intro a
+  induction a with
+  | nil => intro b devs; rfl
+  | cons x rest ih => intro b devs; obtain ⟨i, items⟩ := x; simp only [List.cons_append, applyBlocks]; exact ih b _
+
+theorem lookup_applyBlocks_id : ∀ (blocks : P2.Blocks) (devs : List (Nat × DS)) (m : Nat),
+    (lookupDev (applyBlocks (fun _ _ ds => ds) devs blocks) m).getD [] = (lookupDev devs m).getD [] := by
+  intro blocks
+  induction blocks with
+  | nil => intro devs m; rfl
+  | cons b rest ih =>
+    intro devs m
+    obtain ⟨i, items⟩ := b
+    unfold applyBlocks
+    rw [ih]
+    by_cases hi : m = i
+    · subst hi; rw [lookupDev_updDev_self]; rfl
+    · rw [lookupDev_updDev_other _ _ hi]
+
+/-- before the UID response the handlers of the waiting kinds create nothing: the controller's
+dataset is untouched by an ecoMAX parameters response, and a mixer parameters response only creates
+(empty) mixer objects — no mixer gains, loses or changes a parameter -/
+theorem waiting_kinds_inert_before_uid (pt : Product) (w : World) (hk : w.known = false) (msg : List Byte) :
+    (step pt w (.ecomaxParams msg)).1.ecomax = w.ecomax ∧
+    (step pt w (.ecomaxParams msg)).1.mixers = w.mixers ∧
+    (step pt w (.mixerParams msg)).1.ecomax = w.ecomax ∧
+    ∀ m, (lookupDev (step pt w (.mixerParams msg)).1.mixers m).getD [] = (lookupDev w.mixers m).getD [] := by
+  refine ⟨?_, ?_, ?_, ?_⟩
+  · simp only [step]; split <;> simp [hk]
+  · simp only [step]; split <;> simp [hk]
+  · simp only [step]; split <;> simp [hk]
+  · intro m
+    simp only [step]
+    split
+    · rfl
+    · next blocks _ _ =>
+      simp only [hk, Bool.false_eq_true, if_false]
+      exact lookup_applyBlocks_id blocks w.mixers m
+
+/-- **delayed_application_uses_real_product (ecoMAX)**: an ecoMAX parameters response handled BEFORE
+the UID response (whatever else is already parked) is applied when the UID arrives, with the table
+of the controller's REAL product type `pt`: the triple decoded from described position `pos` is then
+held under `table_pt[pos].name` with index `pos` -/
+theorem delayed_application_uses_real_product (pt : Product) (w : World) (hw : WorldOK pt w) (hk : w.known = false)
+    (msg : List Byte) (items : P2.Params) (rest : List Byte) (hdec : P2.decodeEcomax msg = .ok (items, rest))
+    (pos : Nat) (t : P2.Triple) (hmem : (pos, t) ∈ items) (d : Gen.Desc)
+    (hd : (tableOf pt .ecomax)[pos]? = some d) :
+    ∃ e, find (run pt w [.ecomaxParams msg, .uid]).1.ecomax d.name = some e ∧
+      e.index = pos ∧ e.triple = tr t ∧ e.kind = .ecomax ∧ e.name = d.name := by
+  have hrun : (run pt w [.ecomaxParams msg, .uid]).1.ecomax =
+      applyPendingEco pt w.ecomax (w.pendingEco ++ [items]) := by
+    simp [run, step, hdec, hk]
+  rw [hrun, applyPendingEco_append]
+  exact read_slot_ecomax_ds pt _ (applyPendingEco_inv hw.eco _ _ hw.eco) msg items rest hdec pos t hmem d hd
+
+/-- **delayed_application_uses_real_product (mixer)**: likewise for a mixer parameters response
+handled before the UID response: when the UID arrives, mixer `m`'s block is applied with the mixer
+table of the REAL product type (not with a default table) -/
+theorem delayed_application_uses_real_product_mixer (pt : Product) (w : World) (hw : WorldOK pt w)
+    (hk : w.known = false) (msg : List Byte) (blocks : P2.Blocks) (rest : List Byte)
+    (hdec : P2.decodeMixer msg = .ok (blocks, rest))
+    (m : Nat) (items : P2.Params) (hb : (m, items) ∈ blocks)
+    (pos : Nat) (t : P2.Triple) (hmem : (pos, t) ∈ items) (d : Gen.Desc)
+    (hd : (tableOf pt .mixer)[pos]? = some d) :
+    ∃ ds e, lookupDev (run pt w [.mixerParams msg, .uid]).1.mixers m = some ds ∧ find ds d.name = some e ∧
+      e.index = pos ∧ e.triple = tr t ∧ e.kind = .mixer ∧ e.devIndex = m ∧ e.name = d.name := by
+  obtain ⟨hall, hsorted⟩ := decodeMixer_facts hdec
+  obtain ⟨_, _, _, hitems, _, _⟩ := hall (m, items) hb
+  have hrun : (run pt w [.mixerParams msg, .uid]).1.mixers =
+      applyBlocks (mixerBlock pt) (applyBlocks (mixerBlock pt) (applyBlocks (fun _ _ ds => ds) w.mixers blocks) w.pendingMix) blocks := by
+    simp [run, step, hdec, hk, applyMixers, applyBlocks_append]
+  have hdevs : ∀ p ∈ applyBlocks (mixerBlock pt) (applyBlocks (fun _ _ ds => ds) w.mixers blocks) w.pendingMix,
+      ∀ e ∈ p.2, EntryOK pt e ∧ OnMixer p.1 e :=
+    applyMixers_inv _ _ (applyBlocks_inv (Q := fun i ds => ∀ e ∈ ds, EntryOK pt e ∧ OnMixer i e) (fun _ _ _ hq => hq)
+      (fun i e he => by cases he) blocks _ hw.mix)
+  have hold := lookup_getD_facts (Q := fun i e => EntryOK pt e ∧ OnMixer i e) hdevs m
+  obtain ⟨e, hf, hrest⟩ := read_slot_mixer_ds pt m _ hold items hitems pos t hmem d hd
+  refine ⟨_, e, ?_, hf, hrest⟩
+  rw [hrun]
+  exact lookupDev_applyBlocks _ blocks _ hsorted m items hb
+
+example : (run .I {} [.mixerParams [0, 4, 1, 1, 7, 0, 9], .uid]).1.mixers =
+    [(0, [⟨(Gen.mixerI[4]?.map (·.name)).getD "", .mixer, false, 4, ⟨7, 0, 9⟩, 0, 0, 1⟩])] := by decide +kernel
 
 theorem decodeThermo_blocks {T : Nat} {msg : List Byte} {profile : Option P2.Triple} {blocks : P2.Blocks}
     {rest : List Byte} (h : P2.decodeThermo (some T) msg = .ok (.val profile blocks, rest)) :
@@ -661,8 +778,9 @@ theorem addressing_stable_thermostat (pt : Product) (w : World) (hw : WorldOK pt
   have hsame : ∃ ds' y, lookupDev w.thermostats t = some ds' ∧ find ds' e.name = some { e with triple := y } :=
     ⟨ds, e.triple, hl, hf⟩
   cases ev with
-  | ecomaxParams msg => simp only [step]; split <;> exact hsame
-  | mixerParams msg => simp only [step]; split <;> exact hsame
+  | uid => simp only [step]; split <;> exact hsame
+  | ecomaxParams msg => simp only [step]; split <;> (try split) <;> exact hsame
+  | mixerParams msg => simp only [step]; split <;> (try split) <;> exact hsame
   | thermostatsAvailable n => exact hsame
   | schedules msg => simp only [step]; split <;> exact hsame
   | state on => exact hsame
@@ -796,28 +914,28 @@ theorem step_set_out (pt : Product) (w : World) (dev : Dev) (name : String) (v :
 reachable world; slot `k` of the payload is the defined triple `t` and position `start + k` has
 description `d`.  Then `set` of raw value `v` on the parameter named `d.name` queues the request
 `SetEcomaxParameter [start + k, v]`. -/
-theorem payload_to_request_ecomax (pt : Product) (w : World) (hw : WorldOK pt w) (m : P2.EcomaxMsg)
+theorem payload_to_request_ecomax (pt : Product) (w : World) (hw : WorldOK pt w) (hkn : w.known = true) (m : P2.EcomaxMsg)
     (hm : P2.wfEcomax m = true) (rest : List Byte) (k : Nat) (t : P2.Triple)
     (hk : m.slots[k]? = some (some t)) (d : Gen.Desc)
     (hd : (tableOf pt .ecomax)[m.start.toNat + k]? = some d) (v : Nat) (hv : v < 256) :
     (run pt w [.ecomaxParams (P2.encodeEcomax m ++ rest), .set .ecomax d.name v]).2 =
       [.req ⟨.setEcomax, [m.start.toNat + k, v]⟩] := by
   have hdec := C05.rt_params_ecomax m rest hm
-  obtain ⟨e, hfind, hidx, _, hkind, _⟩ := read_slot_ecomax pt w hw _ _ _ hdec _ t
+  obtain ⟨e, hfind, hidx, _, hkind, _⟩ := read_slot_ecomax pt w hw hkn _ _ _ hdec _ t
     (mem_valRun m.slots m.start.toNat k t hk) d hd
   have hlt : m.start.toNat + k < 256 := by
     have := (List.getElem?_eq_some_iff.mp hd).1
     have := tables_short pt .ecomax
     omega
   rw [run_two, step_set_out pt _ .ecomax d.name v _ e rfl hfind]
-  have h1 : (step pt w (.ecomaxParams (P2.encodeEcomax m ++ rest))).2 = [] := by simp only [step, hdec]
+  have h1 : (step pt w (.ecomaxParams (P2.encodeEcomax m ++ rest))).2 = [] := by simp only [step, hdec, hkn, if_true]
   rw [h1]
   simp only [requestOf, hkind, hidx, hlt, hv, and_self, if_true, List.nil_append]
 
 /-- **payload_to_request (mixer)**: slot `k` of mixer block `j` of `encodeMixer m` is the defined
 triple `t`, position `start + k` has description `d`: `set` on mixer `j`'s parameter `d.name`
 queues `SetMixerParameter [j, start + k, v]`. -/
-theorem payload_to_request_mixer (pt : Product) (w : World) (hw : WorldOK pt w) (m : P2.MixerMsg)
+theorem payload_to_request_mixer (pt : Product) (w : World) (hw : WorldOK pt w) (hkn : w.known = true) (m : P2.MixerMsg)
     (hm : P2.wfMixer m = true) (rest : List Byte) (j : Nat) (b : List P2.Slot) (hj : m.blocks[j]? = some b)
     (k : Nat) (t : P2.Triple) (hk : b[k]? = some (some t)) (d : Gen.Desc)
     (hd : (tableOf pt .mixer)[m.start.toNat + k]? = some d) (v : Nat) (hv : v < 256) :
@@ -827,7 +945,7 @@ theorem payload_to_request_mixer (pt : Product) (w : World) (hw : WorldOK pt w) 
   have hmem := mem_valRun b m.start.toNat k t hk
   have hblock := mem_valBlocks m.start.toNat m.blocks 0 j b hj (by intro h; rw [h] at hmem; cases hmem)
   rw [Nat.zero_add] at hblock
-  obtain ⟨ds, e, hlook, hfind, hidx, _, hkind, hdev, _⟩ := read_slot_mixer pt w hw _ _ _ hdec j _ hblock _ t hmem d hd
+  obtain ⟨ds, e, hlook, hfind, hidx, _, hkind, hdev, _⟩ := read_slot_mixer pt w hw hkn _ _ _ hdec j _ hblock _ t hmem d hd
   have hlt : m.start.toNat + k < 256 := by
     have := (List.getElem?_eq_some_iff.mp hd).1
     have := tables_short pt .mixer
@@ -836,7 +954,7 @@ theorem payload_to_request_mixer (pt : Product) (w : World) (hw : WorldOK pt w) 
     simp only [P2.wfMixer, Bool.and_eq_true, decide_eq_true_eq] at hm
     have := (List.getElem?_eq_some_iff.mp hj).1
     omega
-  have h1 : (step pt w (.mixerParams (P2.encodeMixer m ++ rest))).2 = [] := by simp only [step, hdec]
+  have h1 : (step pt w (.mixerParams (P2.encodeMixer m ++ rest))).2 = [] := by simp only [step, hdec, hkn, if_true]
   rw [run_two, step_set_out pt _ (.mixer j) d.name v ds e hlook hfind, h1]
   simp only [requestOf, hkind, hidx, hdev, hlt, hv, hjlt, and_self, if_true, List.nil_append]
 
